@@ -92,14 +92,22 @@ def header_bit_hints(u, H='impl Header', fns=('set_version', 'get_version', 'set
     have = lambda fn: re.search(r'fn\s+' + fn + r'\b', u.text) is not None
     def assigned(fn):
         body = _fn_text(u, (H, fn))
-        m = re.search(r'self\s*\.\s*ver_type_tkl\s*=\s*([^;]+);', body)
+        m = re.search(r'self\s*\.\s*ver_type_tkl\s*([|&^]?)=(?!=)\s*([^;]+);', body)
         if not m:
             raise ExtractError('unit %s: %s does not assign self.ver_type_tkl' % (u.name, fn))
-        return body, m
+        # `x op= e` is `x = x op (e)`
+        class M:
+            def __init__(self, mm):
+                self._m = mm
+            def start(self):
+                return self._m.start()
+            def group(self, i):
+                return ('self.ver_type_tkl %s (%s)' % (self._m.group(1), self._m.group(2))) if self._m.group(1) else self._m.group(2)
+        return body, M(m)
     if 'set_version' in fns and have('set_version'):
         body, m = assigned('set_version')
         e = _subst_locals(m.group(1), body[:m.start()])
-        u.before((H, 'set_version'), r'self\s*\.\s*ver_type_tkl\s*=', '''        proof {
+        u.before((H, 'set_version'), r'self\s*\.\s*ver_type_tkl\s*[|&^]?=(?!=)', '''        proof {
             let x = self.ver_type_tkl;
             assert(v < 4 ==> (%s) / 64 == v) by (bit_vector);
             assert(v < 4 ==> ((%s) / 16) %% 4 == (x / 16) %% 4) by (bit_vector);
@@ -111,7 +119,7 @@ def header_bit_hints(u, H='impl Header', fns=('set_version', 'get_version', 'set
         tl = mt.group(1) if mt else 'tn'
         e = _subst_locals(m.group(1), re.sub(r'let\s+' + tl + r'\b[^;]*?=\s*match[^}]*\};', '', body[:m.start()], flags=re.S))
         e = re.sub(r'(?<![\w.])' + re.escape(tl) + r'(?![\w(])', 'tn8', e)
-        u.before((H, 'set_type'), r'self\s*\.\s*ver_type_tkl\s*=', '''        proof {
+        u.before((H, 'set_type'), r'self\s*\.\s*ver_type_tkl\s*[|&^]?=(?!=)', '''        proof {
             let x = self.ver_type_tkl; let tn8: u8 = %s;
             assert(tn8 <= 3 ==> ((%s) / 16) %% 4 == tn8) by (bit_vector);
             assert(tn8 <= 3 ==> (%s) / 64 == x / 64) by (bit_vector);
@@ -123,7 +131,7 @@ def header_bit_hints(u, H='impl Header', fns=('set_version', 'get_version', 'set
         am = re.search(r'assert(?:_eq!)?\(\(?([^;]*?)\)?(?:, | == )0\);', body)
         guard = _subst_locals(am.group(1), '') if am else '0xF0 & tkl'
         u.body_start((H, 'set_token_length'), '        proof { assert(tkl < 16 ==> (%s) == 0) by (bit_vector); }' % guard)
-        u.before((H, 'set_token_length'), r'self\s*\.\s*ver_type_tkl\s*=', '''        proof {
+        u.before((H, 'set_token_length'), r'self\s*\.\s*ver_type_tkl\s*[|&^]?=(?!=)', '''        proof {
             let x = self.ver_type_tkl;
             assert(tkl < 16 ==> (%s) %% 16 == tkl) by (bit_vector);
             assert(tkl < 16 ==> (%s) / 64 == x / 64) by (bit_vector);
